@@ -109,6 +109,32 @@ def with_single_step_embedded(spec):
 
 
 # ----------------------------------------------------------------------------- helpers
+class CallTimeout(Exception):
+    pass
+
+
+class time_limit:
+    """wall-clock guard around one library call (stiff regularised EOM can take minutes before
+    failing); a timeout is counted, never reported"""
+
+    def __init__(self, seconds):
+        self.seconds = seconds
+
+    def _raise(self, *a):
+        raise CallTimeout()
+
+    def __enter__(self):
+        import signal
+        self._old = signal.signal(signal.SIGALRM, self._raise)
+        signal.setitimer(signal.ITIMER_REAL, self.seconds)
+
+    def __exit__(self, *a):
+        import signal
+        signal.setitimer(signal.ITIMER_REAL, 0)
+        signal.signal(signal.SIGALRM, self._old)
+        return False
+
+
 class Ctx:
     def __init__(self, run, rng, quick):
         self.run, self.rng, self.quick = run, rng, quick
@@ -750,13 +776,12 @@ def block_overcomplete(ctx, tm, qntot):
     exact = np.array(L.exact_bond_dims(tm))
     a = L.random_mps(tm, rng, qntot, 2 * int(max(exact)))
     b = L.random_mps(tm, rng, qntot, 2 * int(max(exact)))
-    c = L.random_mps(tm, rng, qntot, 2 * int(max(exact)))
-    if a is None or b is None or c is None:
+    if a is None or b is None:
         run.count("overcomplete:random-failed")
         return
     # canonical and over-complete: random state whose full-rank part is mixed in so that the
     # compressed copy has full rank (needed by the fixed-rank one-site schemes)
-    s = a.add(b.scale(0.7)).add(c.scale(0.5))
+    s = a.add(b.scale(0.7))
     s.normalize("mps_only")
     inputs = []
     if np.any(np.array(a.bond_dims) > exact):
@@ -786,8 +811,12 @@ def block_overcomplete(ctx, tm, qntot):
                 run.count(f"overcomplete:{base}:rank-deficient-skipped")
                 continue
             try:
-                out = evolve_n(inp, mpo, T, 1, spec, int(max(inp.bond_dims)))
+                with time_limit(4.0):
+                    out = evolve_n(inp, mpo, T, 1, spec, int(max(inp.bond_dims)))
                 err = float(np.linalg.norm(dense_state(out) - ref))
+            except CallTimeout:
+                run.count(f"overcomplete:{base}:{gname}:timeout")
+                continue
             except Exception as e:
                 ctx.evald(("overcomplete", tm.label, nm, gname))
                 run.count(f"overcomplete:{base}:{gname}:{type(e).__name__}")
@@ -852,6 +881,7 @@ def search(run, rng, quick):
                 block_order(ctx, tm, prod if prod is not None else psi)
                 block_td(ctx, tm, psi)
                 block_switch(ctx, tm, psi)
+                block_annihilated(ctx, tm)
                 if not quick:
                     block_gauge(ctx, tm, psi)
                     block_adaptive(ctx, tm, psi)
@@ -890,13 +920,14 @@ def search(run, rng, quick):
 
 
 def product_state(ctx, tm, qntot):
-    """a Hartree product state in the sector (bond dimension 1) for the P&C family"""
+    """a Hartree product state in the sector (bond dimension 1) on which H acts non-trivially"""
     rng = ctx.rng
+    H = tm.dense_h()
     mask = tm.sector_mask(qntot)
-    idx = np.flatnonzero(mask)
+    idx = [int(i) for i in np.flatnonzero(mask) if np.linalg.norm(H[:, i]) > 0.1]
     if len(idx) == 0:
         return None
-    k = int(idx[int(rng.integers(0, len(idx)))])
+    k = idx[int(rng.integers(0, len(idx)))]
     levels = np.unravel_index(k, tm.dims)
     cond = {tm.sites[i].dof: int(l) for i, l in enumerate(levels)}
     try:
@@ -905,3 +936,38 @@ def product_state(ctx, tm, qntot):
         return None
     ctx.run.count("state:product")
     return mp
+
+
+@timed
+def block_annihilated(ctx, tm):
+    """product basis states with H psi = 0 exactly (e.g. the vacuum of a model without constant
+    term): exp(-iHt) psi = psi, every scheme must return it"""
+    run = ctx.run
+    H = tm.dense_h()
+    ks = [int(i) for i in range(tm.dim) if np.linalg.norm(H[:, i]) == 0.0]
+    if not ks:
+        run.count("annihilated:none-in-model")
+        return
+    levels = np.unravel_index(ks[0], tm.dims)
+    mp = Mps.hartree_product_state(tm.model(), {tm.sites[i].dof: int(l) for i, l in enumerate(levels)})
+    v0 = dense_state(mp)
+    mpo = tm.mpo()
+    for spec in (dict(kind="pc"), dict(kind="tdrk4"), dict(kind="tdrk", rk="Heun_RK2"), dict(kind="ps", solver="krylov"),
+                 dict(kind="ps2", solver="krylov")):
+        nm = name_of(spec)
+        fam = "P&C" if nm.startswith("P&C") else nm.split(":")[0]
+        try:
+            out = evolve_n(mp, mpo, 0.3, 1, spec, 4)
+            err = float(np.linalg.norm(dense_state(out) - v0))
+        except AssertionError as e:
+            ctx.evald(("annihilated", tm.label, nm))
+            run.violation(f"{fam}:H-annihilates-state:AssertionError", replay_base(tm, v0, spec, error=repr(e), where=exc_sig(e),
+                                                                                   levels=[int(l) for l in levels]))
+            continue
+        except Exception as e:
+            run.violation(f"{fam}:H-annihilates-state:exception:{exc_sig(e)}", replay_base(tm, v0, spec, error=repr(e)))
+            continue
+        ctx.evald(("annihilated", tm.label, nm))
+        run.count(f"annihilated:{fam}:ok")
+        if not err <= 1e-10:
+            run.violation(f"{fam}:H-annihilates-state:wrong-result", replay_base(tm, v0, spec, error=err))
